@@ -17,6 +17,11 @@ def run(ctx):
     found_s = replies_check.run(ctx, 200 if ctx.tier == "quick" else 20000) or found_s
     ctx.cov["rule"] += "; plus lock-step of the real async_sender (mock service) and detail::replies against their Lean models"
     found = found_s or CC.report(ctx, "C05", fails)
+    # below the client: the real autoconnect_stream / reconnect_op / connect_op over a scripted socket (H-stream) — a cancelled and closed
+    # stream stays closed, also when a connection attempt that was in flight at the cancel succeeds afterwards
+    import stream_check as SC
+    found = SC.phase(ctx, "C05", 250 if ctx.tier == "quick" else 6000, 150) or found
+    ctx.cov["rule"] += "; plus H-stream scenarios (cancel/close at arbitrary moments, cancelled socket operations that complete late): after cancel()+close() the stream never opens again by itself, every stream operation completes, the connection lock is released"
     # the publish operation itself: real publish_send_op on a mock service, lock-step with Model/PubSend.lean, operation rules on its traces
     import pubsend_check
     found = pubsend_check.run(ctx, 1500 if ctx.tier == "quick" else 60000) or found
